@@ -242,7 +242,11 @@ class Tree(DictSWC):
 
             return branches, [node.id]
 
-        branches, _ = self.traverse(leave=collect_branches)
+        branches, stem = self.traverse(leave=collect_branches)
+        if len(stem) > 1:  # root with a single child: close the pending stem
+            stem.reverse()
+            branches.append(Tree.Branch(self, np.array(stem, dtype=np.int32)))
+            branches.reverse()
         return branches
 
     def get_paths(self) -> list[Path]:
